@@ -702,6 +702,9 @@ def install(w):
         def discriminant(self, ex):
             return 0 if self.i is not None else 1
 
+        def field_slot(self, ex, idx):
+            return [self], 0
+
         def slot_for(self, ex, mk):
             if self.i is None:
                 self.m.entries.append([self.key, mk()])
@@ -723,6 +726,46 @@ def install(w):
         if e.i is not None:
             ex.call_value(a[1], [Ref(e.m.entries[e.i], 1)])
         return e
+    def ve_insert(ex, c, a):
+        return a[0].slot_for(ex, lambda: a[1])
+    M['VacantEntry::insert'] = ve_insert
+    M['VacantEntry::insert_entry'] = lambda ex, c, a: (a[0].slot_for(ex, lambda: a[1]), a[0])[1]
+
+    def oe_get_mut(ex, c, a):
+        e = deref(a[0])
+        return Ref(e.m.entries[e.i], 1)
+    M['OccupiedEntry::get_mut'] = oe_get_mut
+    M['OccupiedEntry::get'] = oe_get_mut
+    M['OccupiedEntry::into_mut'] = oe_get_mut
+
+    def oe_insert(ex, c, a):
+        e = deref(a[0])
+        old = e.m.entries[e.i][1]
+        e.m.entries[e.i][1] = a[1]
+        return old
+    M['OccupiedEntry::insert'] = oe_insert
+
+    def oe_remove(ex, c, a):
+        e = deref(a[0])
+        return e.m.entries.pop(e.i)[1]
+    M['OccupiedEntry::remove'] = oe_remove
+    M['OccupiedEntry::swap_remove'] = oe_remove
+    M['OccupiedEntry::shift_remove'] = oe_remove
+
+    def oe_remove_entry(ex, c, a):
+        e = deref(a[0])
+        k, v = e.m.entries.pop(e.i)
+        return Agg('tuple', None, [k, v])
+    M['OccupiedEntry::remove_entry'] = oe_remove_entry
+
+    def e_key(ex, c, a):
+        e = deref(a[0])
+        if e.i is not None:
+            return Ref(e.m.entries[e.i], 0, False)
+        return Ref([e.key], 0, False)
+    M['OccupiedEntry::key'] = e_key
+    M['VacantEntry::key'] = e_key
+    M['Entry::key'] = e_key
     M['Entry::or_insert_with'] = e_or_insert_with
     M['Entry::or_insert'] = e_or_insert
     M['Entry::or_default'] = e_or_default
